@@ -17,6 +17,8 @@ import tempfile
 import re
 
 HERE = os.path.dirname(os.path.abspath(__file__))
+REPO = os.environ.get("VERIF_REPO", "/repo")      # MANIFEST commands use /repo; tools/run_seeded.py points this at a scratch worktree
+sys.path.insert(0, REPO)
 VERIF = os.path.abspath(os.path.join(HERE, ".."))
 sys.path.insert(0, HERE)
 sys.path.insert(0, os.path.join(VERIF, "harness"))
